@@ -799,7 +799,7 @@ pub fn run(tier: &str) -> Vec<Grid> {
 }
 
 fn run_mode(_tier: &str) -> Vec<Grid> {
-    let mut g = Grid::new("c17.serialize", "value family (u8, i64, String, (u8,String), Vec<u16> of length 0..3, Option, hand-written struct / enum / newtype+map) x failure injected at each k-th serializer call (k = 0..calls+1); the call log and the result through Arc<T>/UniqueArc<T> must equal those of the value");
+    let mut g = Grid::new("c17.serialize", "value family (u8, i64, String, (u8,String), Vec<u16> of length 0..3, Option, hand-written struct / enum / newtype+map, five zero-sized payloads with distinct serializer calls, [u64;n] for n in 1,2,4,8,9,16,17,32) x failure injected at each k-th serializer call (k = 0..calls+1); the call log and the result through Arc<T>/UniqueArc<T> must equal those of the value");
     for v in [0u8, 7, 255] {
         ser_case(&mut g, "u8", &v);
     }
@@ -843,7 +843,7 @@ fn run_mode(_tier: &str) -> Vec<Grid> {
     macro_rules! ser_ladder { ($($n:literal)*) => { $( ser_case(&mut g, concat!("[u64;", $n, "]"), &[0x0101_0101_0101_0101u64 * $n; $n]); )* } }
     ser_ladder!(1 2 4 8 9 16 17 32);
 
-    let mut d = Grid::new("c17.deserialize", "input trees (well-formed and ill-typed) for each payload type x failure injected at each k-th deserializer callback; Arc<T>/UniqueArc<T> give Ok iff T does, equal value, count 1, exactly one extra allocation; on Err the same error and nothing left allocated");
+    let mut d = Grid::new("c17.deserialize", "input trees (well-formed and ill-typed) for each payload type (incl. five zero-sized types and a size ladder [u64;n] of 8..256 bytes with well-formed / one-short / ill-typed-in-the-middle sequences) x failure injected at each k-th deserializer callback; Arc<T>/UniqueArc<T> give Ok iff T does, equal value, count 1, exactly one extra allocation; on Err the same error and nothing left allocated");
     let s = |x: &str| V::S(x.to_string());
     let inputs: Vec<V> = vec![V::U(7), V::U(300), V::I(-3), s("text"), s(""), V::Unit, V::Seq(vec![]), V::Seq(vec![V::U(1), V::U(2), V::U(3)]), V::Seq(vec![V::U(9), s("xy")]), V::Seq(vec![V::U(1), s("p"), V::Seq(vec![V::U(5), V::U(70000)])]), V::Seq(vec![V::U(1), s("p"), V::Seq(vec![V::U(5)])]), V::Map(vec![(s("x"), V::U(1)), (s("y"), s("q")), (s("z"), V::Seq(vec![]))]), V::Map(vec![(s("x"), V::U(1)), (s("w"), V::U(2))]), V::Map(vec![(s("y"), s("q"))]), V::Variant("A".into(), None), V::Variant("B".into(), Some(Box::new(V::U(4)))), V::Variant("Z".into(), None), V::Variant("B".into(), Some(Box::new(s("no"))))];
     for inp in &inputs {
